@@ -2466,6 +2466,15 @@ func (k *Kernel) loadInitialCommittingView(ctx context.Context, s *kState) error
 		s.Committing.RoundView.PrevCommitProof = ch.Proof
 	}
 
+	// If the committed header store already holds a header for this height,
+	// that is the header this mirror committed.
+	// The stored precommits may since have been joined by late precommits for another block,
+	// so the vote powers alone do not necessarily identify it any more.
+	if ch, err := k.hStore.LoadCommittedHeader(ctx, h); err == nil {
+		s.CommittingHeader = ch.Header
+		return nil
+	}
+
 	var maxPower uint64
 	var committingHash string
 
